@@ -24,6 +24,11 @@ def cellDepthList : List Cell → Nat
   | c :: cs => Nat.max (cellDepth c) (cellDepthList cs)
 end
 
+/-- `n` bytes out of `8·n` bits -/
+def bytesOfBits : Nat → List Bool → List UInt8
+  | 0, _ => []
+  | k + 1, bs => UInt8.ofNat (bitsToNat (bs.take 8)) :: bytesOfBits k (bs.drop 8)
+
 structure Builder where
   ty : Nat := 0
   mask : Nat := 0
@@ -40,6 +45,8 @@ structure Slice where
 
 namespace Builder
 def empty : Builder := {}
+/-- the builder after `xs` more bits and `rs` more references -/
+def app (b : Builder) (xs : List Bool) (rs : List Cell) : Builder := { b with bits := b.bits ++ xs, refs := b.refs ++ rs }
 def toCell (b : Builder) : Cell := .mk b.ty b.mask b.bits b.refs
 def ofCell : Cell → Builder | .mk t m bs rs => { ty := t, mask := m, bits := bs, refs := rs }
 
@@ -105,6 +112,8 @@ end Builder
 namespace Slice
 def ofCell : Cell → Slice | .mk t m bs rs => { ty := t, mask := m, bits := bs, refs := rs }
 def toCell (s : Slice) : Cell := .mk s.ty s.mask s.bits s.refs
+/-- a slice that starts with the bits `xs` and the references `rs` and continues as `s` -/
+def prepend (xs : List Bool) (rs : List Cell) (s : Slice) : Slice := { s with bits := xs ++ s.bits, refs := rs ++ s.refs }
 def ofBuilder (b : Builder) : Slice := { ty := b.ty, mask := b.mask, bits := b.bits, refs := b.refs }
 
 def isLibrary (s : Slice) : Bool := s.ty == tyLibrary
@@ -137,11 +146,9 @@ def readInt (s : Slice) (n : Nat) : Outcome (Int × Slice) :=
     let (bs, s) ← s.readBits n
     pure (bitsToInt bs, s)
 
-def bitsToBytesExact (bs : List Bool) : List UInt8 := bitsToBytes bs
-
 def readBytes (s : Slice) (n : Nat) : Outcome (List UInt8 × Slice) := do
   let (bs, s) ← s.readBits (n * 8)
-  pure (bitsToBytes bs, s)
+  pure (bytesOfBits n bs, s)
 
 /-- ReadBigUint after the repair of defect #1 (the leading partial byte is kept): the value of the next `n` bits -/
 def readBigUint (s : Slice) (n : Nat) : Outcome (Int × Slice) := do
